@@ -26,6 +26,16 @@ RULE = ('EXACT stream (model at the exact instance, small-integer / dyadic data,
         'convolution); passes 4..12; excludes lists with 1-4 entries in every order incl. NaN first/middle/last and duplicates; '
         'stats_funcs reversed, rotated, single, with duplicates; hotspots with |mean|/std 1e2..1e6, constant and all-NaN rasters; '
         'the `name` argument of apply / mean / convolution_2d. '
+        'THEME stream (appended last): every memory layout (Fortran, transposed view, strided view [::2, ::3], reversed view, '
+        'non-writeable) of the raster and of the kernel separately; excludes / passes handed over as python ints, tuples, numpy '
+        'arrays of float32 / int16 / float64 and numpy scalars; integer rasters at the limits of int8/uint8/int16/uint16 (exact '
+        'stream) and with values 2^24+1 .. 2^53-1 in int32/int64/uint32/uint64 (float stream, bit-for-bit); excludes equal to and one '
+        'ulp (float32 and float64) around float32 cell values, 1e-9 offsets; several lazy Dask results from ONE dask.compute and a '
+        'lazy result computed after other library calls; call sequences (repeat, other kernel, again) on derived rasters (slice '
+        'view, copy, astype float32, stepped/reversed view) wrapped in DataArrays with descending / fractional / 1e6-spaced / lat-lon '
+        'coordinates, attrs and a name, checking that results carry the dims / coords / attrs and that data, coords, attrs, name and '
+        'the mutable default arguments are untouched; name = \'\', None, 0; stats_funcs as tuple / ndarray; kernels of 315 cells; '
+        'all-NaN, all-equal and single-valid-cell rasters for every function, kernels without any 1-entry. '
         'focal_stats: default and random sub-lists/orders of the 7 statistics. focal.mean: passes 0..3 x excludes [nan] / [nan,v] / '
         '[v] / [v,w] / [v,nan,w]. convolution_2d: dyadic and integer weighted kernels of every odd shape up to 5x7, rasters smaller than '
         'the kernel included. _calc_hotspots_numpy: z-scores at, one ulp (float64 and float32) below and above every ladder constant, '
@@ -686,6 +696,22 @@ def _np(x):
     return x.compute() if hasattr(x, 'compute') else x
 
 
+# the theme stream wraps the raster in a DataArray with coordinates / attrs and inspects the returned objects
+_HOOK = {'make': None, 'post': None}
+
+
+def _mk(a, chunks):
+    if _HOOK['make'] is not None:
+        return _HOOK['make'](a, chunks)
+    return xr.DataArray(_backed(a, chunks), dims=['y', 'x'])
+
+
+def _post(res):
+    if _HOOK['post'] is not None:
+        _HOOK['post'](res)
+    return res
+
+
 def run_apply(ctx, pend, a, dtype, karr, fname, chunks=None):
     focal, conv, funcs = _impl()
     rows = to_rows(a)
@@ -699,7 +725,7 @@ def run_apply(ctx, pend, a, dtype, karr, fname, chunks=None):
     what = 'focal.apply(func=%s, kernel %dx%d)' % (fname, karr.shape[0], karr.shape[1])
     try:
         nm = [None, 'my_layer'][len(rows) % 2]
-        agg = xr.DataArray(_backed(a, chunks), dims=['y', 'x'])
+        agg = _mk(a, chunks)
         if fname == 'default':
             res = focal.apply(agg, karr)
             fname = 'mean'
@@ -707,6 +733,7 @@ def run_apply(ctx, pend, a, dtype, karr, fname, chunks=None):
             res = focal.apply(agg, karr, funcs[fname])
         else:
             res = focal.apply(agg, karr, funcs[fname], name=nm)
+        _post(res)
         if res.name != (nm if nm is not None and case['func'] != 'default' else 'focal_apply'):
             ctx.violation('oracle', '%s: result is named %r' % (what, res.name), case)
             return
@@ -730,8 +757,9 @@ def run_stats(ctx, pend, a, dtype, karr, names, chunks=None):
     ctx.count('focal_stats/n=%d/kernel=%dx%d' % (len(names or BUILTIN), karr.shape[0], karr.shape[1]))
     what = 'focal_stats(%s, kernel %dx%d)' % (','.join(names) if names is not None else 'default', karr.shape[0], karr.shape[1])
     try:
-        agg = xr.DataArray(_backed(a, chunks), dims=['y', 'x'])
+        agg = _mk(a, chunks)
         res = focal.focal_stats(agg, karr) if names is None else focal.focal_stats(agg, karr, stats_funcs=list(names))
+        _post(res)
         if chunks is not None:
             res = res.compute()
     except Exception as e:
@@ -752,7 +780,7 @@ def run_stats(ctx, pend, a, dtype, karr, names, chunks=None):
     pend.append(('stats %d %s %s %s' % (len(want), ' '.join(want), grid_line(D), grid_line(K)), layers, case, what))
 
 
-def run_mean(ctx, pend, a, dtype, passes, excludes, chunks=None):
+def run_mean(ctx, pend, a, dtype, passes, excludes, chunks=None, raw_excludes=None, raw_passes=None):
     focal, conv, funcs = _impl()
     rows = to_rows(a)
     case = dict(fn='mean', passes=passes, excludes=list(excludes), data=rows, dtype=dtype)
@@ -761,12 +789,14 @@ def run_mean(ctx, pend, a, dtype, passes, excludes, chunks=None):
         ctx.count('mean/dask')
     ctx.case(case)
     ctx.count('mean/passes=%d/excludes=%s' % (passes, 'nan' if any(isnan(e) for e in excludes) else 'no-nan'))
-    what = 'focal.mean(passes=%d, excludes=%r)' % (passes, excludes)
+    what = 'focal.mean(passes=%d, excludes=%r)' % (passes, excludes if raw_excludes is None else raw_excludes)
     try:
         nm = [None, 'smoothed'][(len(rows) + passes) % 2]
-        agg = xr.DataArray(_backed(a, chunks), dims=['y', 'x'])
-        res = focal.mean(agg, passes=passes, excludes=list(excludes)) if nm is None else \
-            focal.mean(agg, passes=passes, excludes=list(excludes), name=nm)
+        agg = _mk(a, chunks)
+        exo = list(excludes) if raw_excludes is None else raw_excludes       # the object handed over (list / tuple / ndarray of any dtype)
+        pso = passes if raw_passes is None else raw_passes
+        res = focal.mean(agg, passes=pso, excludes=exo) if nm is None else focal.mean(agg, passes=pso, excludes=exo, name=nm)
+        _post(res)
         if res.name != (nm or 'mean'):
             ctx.violation('oracle', '%s: result is named %r' % (what, res.name), case)
             return
@@ -797,8 +827,9 @@ def run_conv(ctx, pend, a, dtype, karr, chunks=None):
     what = 'convolution_2d(kernel %dx%d)' % karr.shape
     try:
         nm = [None, 'smooth'][len(rows) % 2]
-        agg = xr.DataArray(_backed(a, chunks), dims=['y', 'x'])
+        agg = _mk(a, chunks)
         res = conv.convolution_2d(agg, karr) if nm is None else conv.convolution_2d(agg, karr, name=nm)
+        _post(res)
         if res.name != (nm or 'convolution_2d'):
             ctx.violation('oracle', '%s: result is named %r' % (what, res.name), case)
             return
@@ -867,7 +898,7 @@ def run_hotspots(ctx, pend, a, dtype, karr, chunks=None):
     ctx.count('dtype/' + dtype)
 
     def call(arr):
-        return [[int(v) for v in row] for row in _np(focal.hotspots(xr.DataArray(_backed(arr, chunks), dims=['y', 'x']), karr).data).tolist()]
+        return [[int(v) for v in row] for row in _np(_post(focal.hotspots(_mk(arr, chunks), karr)).data).tolist()]
     if not vals or (const and chunks is not None):
         # all-NaN raster (no mean, no deviation: every comparison with NaN is false) and, on Dask, a constant raster
         # (no early ZeroDivisionError there: 0/0 = NaN): the only admissible answer is "no significance" everywhere
@@ -909,7 +940,7 @@ def run_hotspots(ctx, pend, a, dtype, karr, chunks=None):
                 return
     # negating the raster negates the result (exactly: IEEE negation is exact)
     try:
-        neg = call(-a if not dtype.startswith('uint') else -(a.astype('int64')))
+        neg = call(-a if not is_int_dtype(dtype) else -(a.astype('int64')))
     except Exception as e:
         ctx.violation('oracle', '%s on the negated raster raised %s' % (what, type(e).__name__), case)
         return
@@ -1286,6 +1317,7 @@ def run(ctx):
     ctx.exhaustive = False
     compare_model(ctx, pend)
     run_float_stream(ctx)
+    run_theme_stream(ctx)
 
 
 # ---------------------------------------------------------------------------------------------
@@ -1543,6 +1575,294 @@ def run_float_stream(ctx):
             k = np.array(gen_kernel01(rng, shape=rng.choice([(1, 1), (1, 3), (3, 1), (3, 3), (3, 5), (5, 3)]),
                                       style=rng.choice(['rand', 'full', 'sparse', 'corner'])), dtype='float64')
         frun_hotspots(ctx, fpend, a, 'float64', kind, k)
+    fcompare(ctx, fpend)
+
+
+# ---------------------------------------------------------------------------------------------
+# THEME stream (appended last: earlier rng draws do not shift): memory layouts, parameter objects and dtype limits,
+# Dask compute patterns, call sequences on derived rasters, coordinates / attrs, degenerate inputs
+# ---------------------------------------------------------------------------------------------
+import copy as _copy  # noqa: E402
+
+LAYOUT_NAMES = ['F', 'T', 'strided', 'rev', 'ro']
+
+
+def relayout(a, name):
+    """the same logical array in another memory layout"""
+    a = np.asarray(a)
+    if name == 'F':
+        return np.asfortranarray(a)
+    if name == 'T':                                   # a transposed view of a C-contiguous buffer
+        return np.ascontiguousarray(a.T).T
+    if name == 'strided':                             # big[::2, ::3]
+        big = np.zeros((a.shape[0] * 2, a.shape[1] * 3), dtype=a.dtype)
+        big[::2, ::3] = a
+        return big[::2, ::3]
+    if name == 'rev':                                 # buf[::-1, ::-1]
+        return np.ascontiguousarray(a[::-1, ::-1])[::-1, ::-1]
+    if name == 'ro':
+        b = a.copy()
+        b.setflags(write=False)
+        return b
+    return np.ascontiguousarray(a)
+
+
+THEME_ATTRS = {'res': (0.5, 2.0), 'unit': 'm', 'crs': 'EPSG:3857', 'nested': {'a': [1, 2]}}
+
+
+class _Watch:
+    """builds the DataArray handed to the implementation (coords, attrs, name), remembers the inputs and checks after the
+    call that they are untouched and that the result carries the input's dims / coords / attrs"""
+
+    def __init__(self, ctx, dims=('y', 'x'), coord_kind='desc'):
+        self.ctx, self.dims, self.coord_kind = ctx, dims, coord_kind
+        self.made, self.results = [], []
+
+    def coords(self, r, c):
+        k = self.coord_kind
+        if k == 'desc':                   # descending y, negative fractional non-zero origin x
+            return np.linspace(7.5, 7.5 - 0.5 * (r - 1), r), -3.25 + 2.0 * np.arange(c)
+        if k == 'large':                  # 1e6 spacing, x spacing != y spacing
+            return 4.0e6 + 1.0e6 * np.arange(r), -2.0e6 + 3.0e5 * np.arange(c)
+        if k == 'latlon':                 # pole / antimeridian values
+            return np.linspace(90.0, 90.0 - 1.5 * (r - 1), r), np.linspace(179.5 - (c - 1), 179.5, c)
+        return np.arange(r, dtype='float64'), np.arange(c, dtype='float64')
+
+    def make(self, a, chunks):
+        r, c = a.shape
+        ys, xs = self.coords(r, c)
+        agg = xr.DataArray(_backed(a, chunks), dims=list(self.dims), coords={self.dims[0]: ys, self.dims[1]: xs},
+                           attrs=_copy.deepcopy(THEME_ATTRS), name='src')
+        self.made.append((agg, a, np.array(a, copy=True), ys.copy(), xs.copy(), a.flags.writeable))
+        return agg
+
+    def post(self, res):
+        self.results.append(res)
+
+    def __enter__(self):
+        _HOOK['make'], _HOOK['post'] = self.make, self.post
+        return self
+
+    def __exit__(self, *exc):
+        _HOOK['make'] = _HOOK['post'] = None
+
+    def verify(self, what, case):
+        v = self.ctx.violation
+        for agg, a, snap, ys, xs, wr in self.made:
+            if not (np.array_equal(np.asarray(a), snap, equal_nan=(snap.dtype.kind == 'f')) and a.dtype == snap.dtype
+                    and a.flags.writeable == wr):
+                v('oracle', '%s modified its input raster' % what, case)
+            if agg.attrs != THEME_ATTRS or agg.name != 'src' or not np.array_equal(agg.coords[self.dims[0]].values, ys) \
+                    or not np.array_equal(agg.coords[self.dims[1]].values, xs):
+                v('oracle', '%s modified the attrs / coords / name of its input' % what, case)
+        for res in self.results:
+            d = tuple(res.dims)
+            if d[-2:] != tuple(self.dims):
+                v('oracle', '%s: result dims %r, input dims %r' % (what, d, self.dims), case)
+                continue
+            agg = self.made[0][0]
+            for dim in self.dims:
+                if dim not in res.coords or not np.array_equal(res.coords[dim].values, agg.coords[dim].values):
+                    v('oracle', '%s: coordinate %r of the result differs from the input' % (what, dim), case)
+            want = dict(THEME_ATTRS, unit='%') if res.dtype == np.int8 else THEME_ATTRS
+            if dict(res.attrs) != want:
+                v('oracle', '%s: result attrs %r, expected %r' % (what, dict(res.attrs), want), case)
+        self.made, self.results = [], []
+
+
+def run_theme_stream(ctx):
+    rng = ctx.rng
+    q = ctx.quick()
+    pend, fpend = [], []
+    focal, conv, funcs = _impl()
+    import inspect
+    defaults_before = (list(inspect.signature(focal.mean).parameters['excludes'].default),
+                       list(inspect.signature(focal.focal_stats).parameters['stats_funcs'].default))
+    rot = ctx.seed
+
+    # ---- 1. memory layout of EACH array argument (raster, kernel) separately ------------------------------------------------
+    k33 = np.array([[1, 0, 1], [0, 1, 0], [1, 1, 0]], dtype='float64')
+    for li, lay in enumerate(LAYOUT_NAMES):
+        heavy = (not q) or (li + rot) % 5 < 2          # numba specialises per layout: two apply layouts per quick run, all conv
+        for who in ('raster', 'kernel'):
+            a, dtype = gen_raster(rng, rows=rng.randint(3, 6), cols=rng.randint(3, 7), dtype='float64')
+            kshape = rng.choice([(3, 3), (1, 3), (3, 5), (5, 3)])
+            k01 = np.array(gen_kernel01(rng, kshape, style='rand'), dtype='float64')
+            kw = weighted_kernel(rng, kshape, 1)
+            al = relayout(a, lay) if who == 'raster' else a
+            ctx.count('theme/layout/%s/%s' % (who, lay))
+            run_conv(ctx, pend, al, dtype, relayout(kw, lay) if who == 'kernel' else kw)
+            if heavy:
+                run_apply(ctx, pend, al, dtype, relayout(k01, lay) if who == 'kernel' else k01, ['sum', 'u_idxsum'][li % 2])
+            if who == 'raster':
+                run_mean(ctx, pend, al, dtype, li % 3, [NAN, float(rng.choice([v for v in a.ravel().tolist() if not isnan(v)] or [1.0]))])
+                ah, hd = gen_hot_raster(rng, dtype='float64')
+                run_hotspots(ctx, pend, relayout(ah, lay), hd, small_kernel01(rng))
+            elif heavy:
+                ah, hd = gen_hot_raster(rng, dtype='float64')
+                run_hotspots(ctx, pend, ah, hd, relayout(small_kernel01(rng, (3, 3)), lay))
+                run_stats(ctx, pend, a, dtype, relayout(k01, lay), ['max', 'sum'])
+
+    # ---- 2. parameter objects and precision ------------------------------------------------------------------------------
+    a, dtype = gen_raster(rng, rows=4, cols=5, kind='int', dtype='float64', nanp=0.15)
+    vals = sorted(set(v for v in a.ravel().tolist() if not isnan(v)))
+    v1, v2 = vals[0], vals[-1]
+    for raw, logical in ([[int(v1)], [v1]], [[int(v1), int(v2)], [v1, v2]], [(NAN, v2), [NAN, v2]],
+                         [np.array([NAN, v1], dtype='float32'), [NAN, v1]], [np.array([int(v2), int(v1)], dtype='int16'), [v2, v1]],
+                         [np.array([v2, NAN, v1], dtype='float64'), [v2, NAN, v1]], [[np.float32(v1), np.float32(v2)], [v1, v2]]):
+        ctx.count('theme/excludes-object/%s' % type(raw).__name__)
+        run_mean(ctx, pend, a, dtype, 1, logical, raw_excludes=raw)
+    run_mean(ctx, pend, a, dtype, 2, [NAN], raw_passes=np.int64(2))
+    run_mean(ctx, pend, a.astype('int16'), 'int16', 0, [float(v1)], raw_passes=np.int8(0))
+    # integer rasters at the limits of their dtype (small widths: exact stream; wide values: float stream, exact below 2^53)
+    for dt in ['int8', 'uint8', 'int16', 'uint16']:
+        info = np.iinfo(dt)
+        a = np.array([[info.min, info.max, 0, 1], [info.max, info.min, info.max - 1, info.min + 1], [3, info.max, info.min, 7]], dtype=dt)
+        ctx.count('theme/dtype-limits/' + dt)
+        run_conv(ctx, pend, a, dt, np.array([[0.5, -1.0, 0.25]]))
+        run_mean(ctx, pend, a, dt, 1, [float(info.max)])
+        run_hotspots(ctx, pend, a, dt, np.ones((1, 3)))
+        if (not q) or dt == ['int8', 'uint8', 'int16', 'uint16'][rot % 4]:
+            run_apply(ctx, pend, a, dt, np.ones((1, 3)), 'sum')
+    for dt, vs in (('int32', [2 ** 24 + 1, -(2 ** 24) - 3, 2 ** 31 - 1, -(2 ** 31), 16777217, 5]),
+                   ('int64', [2 ** 24 + 1, 2 ** 31 + 5, -(2 ** 40) - 1, 2 ** 53 - 1, -(2 ** 53) + 1, 3]),
+                   ('uint32', [2 ** 32 - 1, 2 ** 31 + 1, 2 ** 24 + 1, 0, 7, 2 ** 25 + 2]),
+                   ('uint64', [2 ** 53 - 1, 2 ** 40 + 1, 2 ** 24 + 1, 0, 9, 2 ** 33 + 3])):
+        a = np.array([vs, vs[::-1], vs[2:] + vs[:2]], dtype=dt)
+        ctx.count('theme/wide-integers/' + dt)
+        frun_conv(ctx, fpend, a, dt, 'wide-int', np.array([[0.5, -1.0, 0.25], [1.0, 0.0, -0.5], [2.0, 1.0, 1.0]]))
+        frun_mean(ctx, fpend, a, 'wide-int', 2, [float(vs[0])])
+        frun_hotspots(ctx, fpend, a, dt, 'wide-int', np.ones((1, 3)))
+        if (not q) or dt == ['int32', 'int64', 'uint32', 'uint64'][rot % 4]:
+            frun_apply(ctx, fpend, a, dt, 'wide-int', np.ones((3, 3)), 'mean')
+    # excludes equal to, and one ulp around, cell values in the cell's OWN dtype (float32 cells: 0.1f is not the double 0.1)
+    a32 = np.array([[0.1, 0.2, 0.3, 1e-9], [0.1, 16777217.0, 0.7, 0.2], [2.5, 0.1, 1.0 / 3.0, 0.3]], dtype='float32')
+    c = float(a32[0, 0])
+    for ex in ([c], [0.1], [float(np.nextafter(np.float32(0.1), np.float32(1)))], [float(np.nextafter(c, 1.0))], [float(np.nextafter(c, 0.0)), NAN],
+               [float(a32[1, 1]), 16777217.0, c]):
+        ctx.count('theme/excludes-ulp')
+        frun_mean(ctx, fpend, a32, 'float32-cells', 1 + len(ex) % 2, ex)
+    a64 = a32.astype('float64') + 1e-9
+    frun_mean(ctx, fpend, a64, 'offset-1e-9', 1, [float(a64[0, 0]), float(a32[0, 0])])
+    frun_conv(ctx, fpend, a64, 'float64', 'offset-1e-9', np.array([[0.1, 0.2, 0.3]]))
+    run_conv(ctx, pend, gen_raster(rng, rows=4, cols=5, dtype='int16')[0], 'int16', np.array([[0.5, -0.25, 2.0]], dtype='float32'))
+
+    # ---- 3. Dask: several lazy results from ONE dask.compute; a lazy result computed only after other calls -------------
+    import dask
+    import dask.array as da
+    for rep in range(1 if q else 6):
+        a, dtype = gen_raster(rng, rows=6, cols=7, kind='distinct', nanp=0.05, dtype='float64')
+        ah, _ = gen_hot_raster(rng, dtype='float64', rows=6, cols=7)
+        chunks = gen_chunks(rng, 6, 7, rng.choice(['uneven', '1xwide', 'tallx1', 'blocks']))
+        kw = weighted_kernel(rng, (3, 3), 1)
+        k01 = np.array(gen_kernel01(rng, (3, 5), style='rand'), dtype='float64')
+        kh = small_kernel01(rng, (3, 3))
+        case = dict(fn='dask-one-compute', data=to_rows(a), hot=to_rows(ah), dask_chunks=chunks_json(chunks),
+                    kernels=[kw.tolist(), k01.tolist(), kh.tolist()])
+        ctx.case(case)
+        ctx.count('theme/dask-one-compute')
+        try:
+            d = xr.DataArray(da.from_array(a, chunks=chunks), dims=['y', 'x'])
+            dh = xr.DataArray(da.from_array(ah, chunks=chunks), dims=['y', 'x'])
+            lazy_first = conv.convolution_2d(d, kw)                       # computed LAST, after the other library calls
+            lz = [focal.apply(d, k01, funcs['sum']), focal.mean(d, passes=2, excludes=[NAN]), focal.hotspots(dh, kh),
+                  focal.focal_stats(d, k01, stats_funcs=['max', 'sum'])]
+            focal.apply(xr.DataArray(a + 1.0, dims=['y', 'x']), kh)       # unrelated calls in between
+            conv.convolution_2d(xr.DataArray(da.from_array(a * 2.0, chunks=(2, 3)), dims=['y', 'x']), k01).compute()
+            got = dask.compute(*[x.data for x in lz])
+            got_first = lazy_first.data.compute()
+        except Exception as e:
+            ctx.violation('oracle', 'several Dask results from one dask.compute raised %s: %s' % (type(e).__name__, str(e)[:200]), case)
+            continue
+        D, DH = exact_grid(to_rows(a)), exact_grid(to_rows(ah))
+        check_grid(ctx, to_rows(got[0]), oracle_apply(D, kfr(k01), 'sum'), 'f32', case, 'apply(sum) computed with one dask.compute')
+        check_grid(ctx, to_rows(got[1]), oracle_mean(D, 2, [None]), 'f64tol', case, 'mean(passes=2) computed with one dask.compute')
+        exp = oracle_hotspots(DH, kfr(kh), slack=3.0)
+        for y, row in enumerate(np.asarray(got[2]).tolist()):
+            for x, v in enumerate(row):
+                if not exp[y][x][1] and int(v) != exp[y][x][0]:
+                    ctx.violation('oracle', 'hotspots computed with one dask.compute: cell (%d,%d) is %d, expected %d' % (y, x, v, exp[y][x][0]), case)
+        for i_, s_ in enumerate(['max', 'sum']):
+            check_grid(ctx, to_rows(got[3][i_]), oracle_apply(D, kfr(k01), s_), 'f32', case, 'focal_stats layer %s from one dask.compute' % s_)
+        check_grid(ctx, to_rows(got_first), oracle_conv(D, kfr(kw)), 'f32', case, 'convolution_2d computed after other calls')
+
+    # ---- 4. + 6. call sequences on derived rasters; coordinates, attrs, names pass through and inputs stay untouched ------
+    for si, (dims, ck) in enumerate([(('y', 'x'), 'desc'), (('lat', 'lon'), 'latlon'), (('y', 'x'), 'large')]):
+        if q and si != rot % 3 and si != 0:
+            continue
+        with _Watch(ctx, dims, ck) as w:
+            base, dtype = gen_raster(rng, rows=6, cols=7, kind='distinct', nanp=0.08, dtype='float64')
+            hb, _ = gen_hot_raster(rng, dtype='float64', rows=6, cols=7)
+            k1 = np.array(gen_kernel01(rng, (3, 3), style='rand'), dtype='float64')
+            k2 = np.array(gen_kernel01(rng, (1, 3), style='rand'), dtype='float64')
+            kw = weighted_kernel(rng, (3, 3), 1)
+            derived = [('same', base), ('repeat', base), ('slice-view', base[1:, :-1]), ('copy', base.copy()),
+                       ('astype-f32', np.round(base).astype('float32')), ('step-view', base[::2, ::-1])]
+            for dname, arr in (derived if (not q or si == 0) else derived[2:4]):
+                dt = str(arr.dtype)
+                case = dict(fn='sequence', step=dname, dims=list(dims), coords=ck)
+                ctx.count('theme/sequence/' + dname)
+                for what, call in (('apply', lambda: run_apply(ctx, pend, arr, dt, k1, 'sum')),
+                                   ('apply-other-kernel', lambda: run_apply(ctx, pend, arr, dt, k2, 'sum')),
+                                   ('apply-again', lambda: run_apply(ctx, pend, arr, dt, k1, 'sum')),
+                                   ('focal_stats', lambda: run_stats(ctx, pend, arr, dt, k1, ['min', 'sum'])),
+                                   ('mean', lambda: run_mean(ctx, pend, arr, dt, 2, [NAN])),
+                                   ('mean-default', lambda: run_mean(ctx, pend, arr, dt, 1, [NAN])),
+                                   ('convolution_2d', lambda: run_conv(ctx, pend, arr, dt, kw)),
+                                   ('hotspots', lambda: run_hotspots(ctx, pend, hb[:arr.shape[0], :arr.shape[1]], 'float64', k1 if np.any(k1 == 1) else np.ones((1, 1))))):
+                    call()
+                    w.verify('%s on the %s raster (dims %s, %s coordinates)' % (what, dname, '/'.join(dims), ck), dict(case, call=what))
+    defaults_after = (list(inspect.signature(focal.mean).parameters['excludes'].default),
+                      list(inspect.signature(focal.focal_stats).parameters['stats_funcs'].default))
+    if repr(defaults_before) != repr(defaults_after):
+        ctx.violation('oracle', 'the mutable default arguments of mean / focal_stats changed: %r -> %r' % (defaults_before, defaults_after),
+                      dict(fn='defaults-mutated'))
+
+    # ---- 5. parameters: falsy names, list-valued parameters as tuple / ndarray, kernels of hundreds of cells ---------------
+    a, dtype = gen_raster(rng, rows=5, cols=6, dtype='float64')
+    agg = xr.DataArray(a, dims=['y', 'x'])
+    for nm in ('', None, 0):
+        got = (focal.mean(agg, name=nm).name, focal.apply(agg, k33, name=nm).name, conv.convolution_2d(agg, k33, name=nm).name)
+        if got != (nm, nm, nm):
+            ctx.violation('oracle', 'name=%r gives result names %r' % (nm, got), dict(fn='name', name=repr(nm)))
+    for sf in (('sum', 'max'), np.array(['var', 'min', 'mean'])):
+        ctx.count('theme/stats_funcs-object/%s' % type(sf).__name__)
+        try:
+            res = focal.focal_stats(agg, k33, stats_funcs=sf)
+            D = exact_grid(to_rows(a))
+            if [str(x) for x in res.coords['stats'].values.tolist()] != [str(x) for x in sf]:
+                ctx.violation('oracle', 'focal_stats(stats_funcs=%r) labels its layers %r' % (sf, res.coords['stats'].values.tolist()), dict(fn='stats-object'))
+            for i_, s_ in enumerate(sf):
+                check_grid(ctx, to_rows(res.data[i_]), oracle_apply(D, kfr(k33), str(s_)), mode_of(str(s_)), dict(fn='stats-object', layer=str(s_)),
+                           'focal_stats(stats_funcs=%s) layer %s' % (type(sf).__name__, s_))
+        except Exception as e:
+            ctx.violation('oracle', 'focal_stats(stats_funcs=%r) raised %s' % (sf, type(e).__name__), dict(fn='stats-object'))
+    for shape in ([(15, 21)] if q else [(15, 21), (9, 9), (25, 25), (31, 5), (3, 41)]):
+        a, dtype = gen_raster(rng, rows=rng.randint(5, 8), cols=rng.randint(5, 8), kind='distinct', nanp=0.05, dtype='float64')
+        ctx.count('theme/huge-kernel/%dx%d' % shape)
+        run_apply(ctx, pend, a, dtype, np.array(gen_kernel01(rng, shape, style='rand'), dtype='float64'), 'u_idxsum')
+        big, _ = gen_raster(rng, rows=shape[0] + 2, cols=shape[1] + 1, kind='int', nanp=0.0, dtype='float64')
+        run_conv(ctx, pend, big, 'float64', np.array([[rng.choice([0.0, 1.0, -0.5, 0.25]) for _ in range(shape[1])] for _ in range(shape[0])]))
+
+    # ---- 7. degenerate inputs: all-NaN, all-equal, a single valid cell, a kernel without any 1-entry -----------------------
+    allnan = np.full((3, 4), NAN)
+    alleq = np.full((3, 4), 6.0)
+    single = np.full((4, 4), NAN)
+    single[2, 1] = 5.0
+    zk = np.zeros((3, 3))
+    for nm, arr in (('all-NaN', allnan), ('all-equal', alleq), ('single-valid-cell', single)):
+        ctx.count('theme/degenerate/' + nm)
+        run_stats(ctx, pend, arr, 'float64', np.ones((3, 3)), None)
+        run_apply(ctx, pend, arr, 'float64', k33, 'u_count')
+        run_mean(ctx, pend, arr, 'float64', 2, [NAN])
+        run_mean(ctx, pend, arr, 'float64', 1, [99999.0])
+        run_conv(ctx, pend, arr, 'float64', np.array([[0.5, 0.0, -1.0]]))
+    a, dtype = gen_raster(rng, rows=4, cols=5, dtype='float64')
+    ctx.count('theme/degenerate/kernel-without-ones')
+    run_stats(ctx, pend, a, dtype, zk, None)
+    run_apply(ctx, pend, a, dtype, np.full((3, 3), 2.0), 'u_nnan')
+    run_conv(ctx, pend, a, dtype, zk)
+    compare_model(ctx, pend)
     fcompare(ctx, fpend)
 
 
